@@ -29,8 +29,9 @@ var problems []string
 var curGroup = "core"
 
 type groupedProblem struct {
-	Group string `json:"group"`
-	Msg   string `json:"msg"`
+	Group string   `json:"group"`
+	Msg   string   `json:"msg"`
+	Names []string `json:"names,omitempty"` // the Lean names that could not be refreshed, when known
 }
 
 var groupedProblems []groupedProblem
@@ -39,7 +40,18 @@ var groupNames = map[string][]string{} // group -> Lean names (Facts.x / Gen.x) 
 func problem(format string, a ...any) {
 	msg := fmt.Sprintf(format, a...)
 	problems = append(problems, msg)
-	groupedProblems = append(groupedProblems, groupedProblem{curGroup, msg})
+	groupedProblems = append(groupedProblems, groupedProblem{Group: curGroup, Msg: msg})
+}
+
+// problemFor is problem() for a failure that concerns only the given facts.
+func problemFor(names []string, format string, a ...any) {
+	msg := fmt.Sprintf(format, a...)
+	problems = append(problems, msg)
+	full := make([]string, len(names))
+	for i, n := range names {
+		full[i] = "Facts." + n
+	}
+	groupedProblems = append(groupedProblems, groupedProblem{Group: curGroup, Msg: msg, Names: full})
 }
 
 func parseFile(rel string) *ast.File {
@@ -127,7 +139,7 @@ type facts struct {
 
 func (f *facts) set(name string, v uint64, ok bool, what string) {
 	if !ok {
-		problem("fact %s: %s not found in the expected shape", name, what)
+		problemFor([]string{name}, "fact %s: %s not found in the expected shape", name, what)
 		return
 	}
 	f.names = append(f.names, name)
